@@ -533,6 +533,28 @@ class _ExprRewrite(ast.NodeTransformer):
         f = _fstring_of_format(node)
         return self.visit(f) if f is not None else node
 
+    def visit_BinOp(self, node):
+        self.generic_visit(node)
+        # 'text %s and %r' % (a, b) with a tuple display of the right size is the f-string with !s / !r fields
+        if isinstance(node.op, ast.Mod) and isinstance(node.left, ast.Constant) and isinstance(node.left.value, str) and isinstance(node.right, ast.Tuple) \
+                and not any(isinstance(e, ast.Starred) for e in node.right.elts):
+            import re as _re
+            parts = _re.split(r'(%[srd%])', node.left.value)
+            if '%' not in ''.join(p for p in parts if not _re.fullmatch(r'%[srd%]', p)) and sum(1 for p in parts if p in ('%s', '%r', '%d')) == len(node.right.elts):
+                vals, k = [], 0
+                for p in parts:
+                    if p in ('%s', '%r'):
+                        vals.append(ast.FormattedValue(value=node.right.elts[k], conversion=115 if p == '%s' else 114, format_spec=None))
+                        k += 1
+                    elif p == '%d':
+                        return node        # %d truncates floats, {:d} refuses them: not the same
+                    elif p == '%%':
+                        vals.append(ast.Constant(value='%'))
+                    elif p:
+                        vals.append(ast.Constant(value=p))
+                return self.visit(ast.copy_location(ast.JoinedStr(values=vals), node))
+        return node
+
     def visit_FormattedValue(self, node):
         self.generic_visit(node)
         # an empty format spec is no format spec
@@ -543,6 +565,11 @@ class _ExprRewrite(ast.NodeTransformer):
                 (isinstance(node.value, ast.Call) and isinstance(node.value.func, ast.Name) and node.value.func.id in ('str', 'repr') or
                  isinstance(node.value, ast.Constant) and isinstance(node.value.value, str)):
             node.format_spec = None
+        # {str(x)} is {x!s}, {repr(x)} is {x!r}
+        if node.conversion == -1 and node.format_spec is None and isinstance(node.value, ast.Call) and isinstance(node.value.func, ast.Name) \
+                and node.value.func.id in ('str', 'repr') and len(node.value.args) == 1 and not node.value.keywords:
+            node.conversion = 115 if node.value.func.id == 'str' else 114
+            node.value = node.value.args[0]
         # a literal formatted with a literal specification is a literal
         if isinstance(node.value, ast.Constant) and isinstance(node.value.value, (str, int, float)) and not isinstance(node.value.value, bool) \
                 and node.conversion == -1 and (node.format_spec is None or isinstance(node.format_spec, ast.Constant)):
@@ -1926,6 +1953,27 @@ def seq(stmts, k, budget):
         rest = seq(stmts[1:], k, budget)
         return _atoms(st.test, seq(st.body, rest, budget), seq(st.orelse, rest, budget), budget)
     rest = seq(stmts[1:], k, budget)
+    if isinstance(st, ast.Assign) and len(st.targets) == 1 and isinstance(st.targets[0], ast.Name) and st.targets[0].id.startswith(MARK) and _NO_CLOSURES[0] \
+            and isinstance(st.value, ast.Constant) and st.targets[0].id not in _HANDLER_READS[0]:
+        # a local set to a literal: the literal is written where the local is read, on every path up to its next assignment
+        # (the continuation is a tree, so each read has this one definition)
+        done = _subst_const(rest, st.targets[0].id, cx(st.value))
+        if done is not None:
+            budget[0] -= 1
+            return done
+    if isinstance(st, ast.Assign) and len(st.targets) == 1 and isinstance(st.targets[0], ast.Attribute) and chain(st.targets[0]) and isinstance(st.value, ast.Constant) \
+            and len(rest) == 1 and rest[0][0] == 'if' and rest[0][1] in _PURE_ATOMS:
+        # `a.b = literal` overwritten at once on one branch of the following side-effect-free test: a default for the other branch
+        tgt = cx(st.targets[0])
+        root = chain(st.targets[0])[0]
+        _, c, then, other = rest[0]
+
+        def overwrites(br):
+            return bool(br) and br[0][0] == 'assign' and br[0][1] == (tgt,) and root not in br[0][2]
+        if tgt not in c and overwrites(then) != overwrites(other):
+            node = ('assign', (tgt,), cx(st.value))
+            budget[0] -= 1
+            return (('if', c, then, (node,) + other),) if overwrites(then) else (('if', c, (node,) + then, other),)
     if isinstance(st, ast.Assign) and len(st.targets) == 1 and isinstance(st.targets[0], ast.Name) and (st.targets[0].id.startswith(MARK) or st.targets[0].id in _NO_CLOSURES[1]) \
             and _NO_CLOSURES[0] and rest == (('return', cx(st.targets[0])),):
         # `t = E` whose whole continuation is `return t` (t a local no nested scope sees): `return E`, wherever the source
@@ -1933,6 +1981,60 @@ def seq(stmts, k, budget):
         budget[0] -= 1
         return (('return', cx(st.value)),)
     return (_cstmt(st, budget),) + rest
+
+
+_HANDLER_READS = [frozenset()]
+
+
+def _subst_const(tree, mark, const):
+    """the canonical tree with the text `const` in place of the local `mark` wherever it is read before its next assignment;
+    None if that cannot be done simply (augmented assignment, assignment inside a loop / try / with that also reads it)"""
+    def repl(x):
+        if isinstance(x, str):
+            return x.replace(mark, const)
+        if isinstance(x, tuple):
+            return tuple(repl(y) for y in x)
+        return x
+
+    def assigns(x):
+        t = repr(x)
+        return f"('assign', ('{mark}'" in t or f"'aug', " in t and mark in t and _aug_on(x) or f"('for', '{mark}'" in t
+
+    def _aug_on(x):
+        if isinstance(x, tuple):
+            if x and x[0] == 'aug' and mark in x[2]:
+                return True
+            return any(_aug_on(y) for y in x)
+        return False
+
+    out = []
+    for i, node in enumerate(tree):
+        kind = node[0] if isinstance(node, tuple) and node else None
+        if kind == 'assign':
+            targets, value = node[1], node[2]
+            if any(t != mark and mark in t for t in targets):
+                return None
+            out.append(('assign', targets, repl(value)))
+            if mark in targets:
+                return tuple(out) + tuple(tree[i + 1:])
+        elif kind == 'aug':
+            if mark in node[2]:
+                return None
+            out.append(repl(node))
+        elif kind == 'if':
+            t2, e2 = _subst_const(node[2], mark, const), _subst_const(node[3], mark, const)
+            if t2 is None or e2 is None:
+                return None
+            out.append(('if', repl(node[1]), t2, e2))
+        elif kind in ('for', 'while', 'try', 'with', 'def'):
+            if assigns(node) or kind == 'def' and mark in repr(node):
+                return None
+            out.append(repl(node))
+        elif kind in ('del', 'Global', 'Nonlocal') and mark in repr(node):
+            return None
+        else:
+            out.append(repl(node))
+    return tuple(out)
 
 
 def _tree_leaves(tree):
@@ -1969,7 +2071,7 @@ def _cstmt(st, budget):
     if isinstance(st, (ast.For, ast.AsyncFor)):
         return ('for', cx(st.target), cx(st.iter), seq(st.body, LOOP_END, budget), seq(st.orelse, (), budget))
     if isinstance(st, ast.While):
-        return ('while', cx(st.test), seq(st.body, LOOP_END, budget), seq(st.orelse, (), budget))
+        return ('while', repr(_atoms(st.test, (('T',),), (('F',),), budget)), seq(st.body, LOOP_END, budget), seq(st.orelse, (), budget))
     if isinstance(st, ast.Try):
         hs = tuple((cx(h.type), h.name or '', seq(h.body, (), budget)) for h in st.handlers)
         return ('try', seq(st.body, (), budget), hs, seq(st.orelse, (), budget), seq(st.finalbody, (), budget))
@@ -2175,6 +2277,13 @@ def canonical(func, helpers=None, consts=None, sized=None, cls_name=None, props=
         _NO_CLOSURES[0] = not any(isinstance(n, (ast.FunctionDef, ast.AsyncFunctionDef, ast.Lambda, ast.ClassDef, ast.Global, ast.Nonlocal)) for n in ast.walk(f) if n is not f)
         _NO_CLOSURES[1] = tuple(params)
         _PURE_ATOMS.clear()
+        hr = set()
+        for t_ in ast.walk(f):
+            if isinstance(t_, ast.Try):
+                for part in [h.body for h in t_.handlers] + [t_.finalbody]:
+                    for s_ in part:
+                        hr |= {n.id for n in ast.walk(s_) if isinstance(n, ast.Name)}
+        _HANDLER_READS[0] = frozenset(hr)
         tree = seq(f.body, FUNC_END, [60000])
         text = repr(tree)
         seen = {}
